@@ -68,7 +68,8 @@ def handle (op : String) (args impl : List String) : Option Out :=
   | "vgate" => some <|
     match args with
     | [vtok, ftok, idtok, mtok, ftok2] =>
-      match parseMode mtok, parseBool ftok2 with
+      -- the flag word: Force is bit 0, whatever other bits are set
+      match parseMode mtok, (parseNat ftok2).map (fun w => w % 2 == 1) with
       | some mode, some force =>
         -- header as prepared by the harness: a library-written header with some fields rewritten
         let version : Option (Option (List Int)) :=
